@@ -7,7 +7,7 @@
     [T10_xpath_desc_simple_bounded], [T10_xpath_sound_bounded] and [T10_fixed_matcher_bounded] are exhaustive over a
     finite universe (484 trees x 39 step lists), not proved for all trees; the store / keyref theorems are unbounded. *)
 From Coq Require Import NArith List Bool Arith.
-From XV Require Import C10.Spec10 C10.Model10 C10.Values10 C10.Proofs10a C10.Proofs10b.
+From XV Require Import C10.Spec10 C10.Model10 C10.Values10 C10.Proofs10a C10.Proofs10b C10.Proofs10c.
 Import ListNotations.
 
 (** *** T10_store: duplicate detection of the value store = clause 4.1 / 4.2.2, for any value type whose equality
@@ -38,21 +38,51 @@ Proof. exact table_contains. Qed.
 Print Assumptions T10_store_table.
 
 (** ValueStore::addValue step: the field completing a tuple triggers exactly one lookup + put; earlier fields nothing *)
-Theorem T10_store_add_completes : forall (V : Type) (veq : V -> V -> bool) f v (vs : vstore V),
+Theorem T10_store_add_completes : forall (V : Type) (veq : V -> V -> bool) (vhash : V -> list N) f v (vs : vstore V),
   nth_error (vs_vals V vs) f = Some None -> S (vs_count V vs) = length (vs_vals V vs) ->
-  vs_add V veq f v vs =
+  vs_add V veq vhash f v vs =
   Some (mkVS V (vs_ic V vs) (upd_nth f (Some v) (vs_vals V vs)) (length (vs_vals V vs))
-             (put_tuple V veq (upd_nth f (Some v) (vs_vals V vs)) (vs_tuples V vs)),
-        contains V veq (vs_tuples V vs) (upd_nth f (Some v) (vs_vals V vs))).
+             (put_tupleH V veq vhash (upd_nth f (Some v) (vs_vals V vs)) (vs_tuples V vs)),
+        containsH V veq vhash (vs_tuples V vs) (upd_nth f (Some v) (vs_vals V vs))).
 Proof. exact vs_add_completes. Qed.
 Print Assumptions T10_store_add_completes.
 
-Theorem T10_store_add_partial : forall (V : Type) (veq : V -> V -> bool) f v (vs : vstore V),
+Theorem T10_store_add_partial : forall (V : Type) (veq : V -> V -> bool) (vhash : V -> list N) f v (vs : vstore V),
   nth_error (vs_vals V vs) f = Some None -> S (vs_count V vs) < length (vs_vals V vs) ->
-  vs_add V veq f v vs =
+  vs_add V veq vhash f v vs =
   Some (mkVS V (vs_ic V vs) (upd_nth f (Some v) (vs_vals V vs)) (S (vs_count V vs)) (vs_tuples V vs), false).
 Proof. exact vs_add_partial. Qed.
 Print Assumptions T10_store_add_partial.
+
+(** *** hash buckets (RefHashTableOf<FieldValueMap, ICValueHasher>): when equal values have equal hash keys the bucketed
+    lookup / insertion of the model is the plain search the theorems above talk about ... *)
+Theorem T10_hash_transparent : forall (V : Type) (veq : V -> V -> bool),
+  (forall x y, veq x y = veq y x) ->
+  (forall x y z, veq x y = true -> veq y z = true -> veq x z = true) ->
+  forall vhash : V -> list N, (forall x y, veq x y = true -> vhash x = vhash y) ->
+  (forall tuples t, containsH V veq vhash tuples t = contains V veq tuples t) /\
+  (forall t tuples, put_tupleH V veq vhash t tuples = put_tuple V veq t tuples).
+Proof. intros V veq S T vhash H. split; [exact (containsH_is_contains V veq vhash H)|exact (put_tupleH_is_put_tuple V veq vhash H)]. Qed.
+Print Assumptions T10_hash_transparent.
+
+(** ... and hash_respects_eq holds for the modelled types: values identified by ICValueHasher::isDuplicateOf, and
+    values equal in the value space, have the same hash key (canonical form w.r.t. the most generic base type),
+    whatever their derivation depth (integer vs int vs a user restriction, decimal vs long, token vs NCName ...) *)
+Theorem T10_hash_respects_eq : forall a b, kind_of (cv_ty a) <> TNone -> kind_of (cv_ty b) <> TNone ->
+  ceq a b = true -> chash a = chash b.
+Proof. exact chash_respects_ceq. Qed.
+Print Assumptions T10_hash_respects_eq.
+Theorem T10_hash_respects_value_space : forall a b, kind_of (cv_ty a) <> TNone -> kind_of (cv_ty b) <> TNone ->
+  cv_raw a <> [] -> cv_raw b <> [] -> spec_veq a b = true -> chash a = chash b.
+Proof. exact chash_respects_spec_veq. Qed.
+Print Assumptions T10_hash_respects_value_space.
+Example hash_examples :
+  let v := value_of [] in
+  chash (v TInt [43;49]%N) = chash (v (TDer TInt 2) [48;49]%N) /\            (* integer +1, int 01 *)
+  chash (v TDec [49;46;48]%N) = chash (v (TDer TInt 1) [49]%N) /\            (* decimal 1.0, long 1 *)
+  chash (v (TDer TTok 10) [32;97]%N) = chash (v TTok [97;32]%N) /\           (* NCName " a", token "a " *)
+  chash (v TInt [49]%N) <> chash (v TStr [49]%N).
+Proof. vm_compute. repeat split; try reflexivity. discriminate. Qed.
 
 (** *** T10_keyref_order: the keyref verdict is the set-level statement of clause 4.3, hence independent of the
     document order of keys and references and of the number of (equal) tuples *)
